@@ -270,6 +270,20 @@ func main() {
 	ast.Inspect(pjp, func(n ast.Node) bool {
 		ce, ok := n.(*ast.CallExpr)
 		if ok {
+			// a filter through the excluded-key table drops every key of that table here as well
+			if id, ok := ce.Fun.(*ast.Ident); ok && id.Name == "excludedKeyFromString" {
+				for _, k := range excluded {
+					dup := false
+					for _, have := range jwsDeleted {
+						dup = dup || have == k
+					}
+
+					if !dup {
+						jwsDeleted = append(jwsDeleted, k)
+					}
+				}
+			}
+
 			if id, ok := ce.Fun.(*ast.Ident); ok && id.Name == "delete" && len(ce.Args) == 2 {
 				jwsDeleted = append(jwsDeleted, strOf(ce.Args[1], cs))
 			}
